@@ -54,6 +54,8 @@ def _run_op_child(folder, cfg, pool, op, mode, k, log_path, out_path, src=None):
                     import sqlalchemy.exc  # pylint: disable=import-outside-toplevel
 
                     raise sqlalchemy.exc.OperationalError('injected', None, Exception('disk I/O error'))
+                if op.get('fault_errno') == 'EACCES':
+                    raise PermissionError(errno.EACCES, 'injected permission error')
                 raise OSError(errno.EIO, 'injected I/O error')
 
         rc = store.RealCont.__new__(store.RealCont)
@@ -299,6 +301,7 @@ class Lab:
             self.failures.append({'signature': f'op-raised-{kind}', 'text': f'{kind} raised in a fault-free run: {out}', 'replay': self._replay(op)})
             return
         events, _syncs, _ = read_log(os.path.join(scratch, 'trace.log'))
+        self.clean_out = str(out.get('out', ''))
         post = Raw(tdir)
         fake_rc = rc
         line = runner._model_line(fake_rc, op, pre, post)  # pylint: disable=protected-access
@@ -621,19 +624,23 @@ class Lab:
         _copy(rc.folder, d)
         log = os.path.join(scratch, f'fault{k}.log')
         outp = os.path.join(scratch, f'fault{k}.out')
-        _run_op_child(d, cfg, pool, op, 'fault', k, log, outp, self.src)
+        # the failing call raises EIO, or (every third point) EACCES: the library has branches of its own for PermissionError
+        eacces = (k + self.case_id) % 3 == 0
+        op_run = dict(op, fault_errno='EACCES') if eacces else op
+        _run_op_child(d, cfg, pool, op_run, 'fault', k, log, outp, self.src)
         self.bump('fault_points')
+        self.bump('fault_points.EACCES' if eacces else 'fault_points.EIO')
         try:
             out = json.load(open(outp))
         except Exception:  # pylint: disable=broad-except
             out = {'out': 'child-died'}
         self.bump('fault_outcome.' + ('raised' if str(out.get('out', '')).startswith('raised') else 'completed'))
         allow_loud = kind in ('repackOne', 'repack')
-        label = f'I/O call #{k} ({events[k][0] if k < len(events) else "?"}) of {kind} failed'
+        label = f'I/O call #{k} ({events[k][0] if k < len(events) else "?"}) of {kind} failed{" with EACCES" if eacces else ""}'
         probs = self._oracle(d, pool, cfg, set(keep), univ, allow_loud, label)
         for p in probs[:1]:
             self.failures.append({'signature': f'fault-{kind}-' + p.split(':', 1)[1].strip().split(' ')[0], 'text': p, 'replay': self._replay(op, k, 'fault')})
-        if str(out.get('out', '')).startswith('raised') and getattr(self, 'trace_ok', False):
+        if str(out.get('out', '')).startswith('raised') and getattr(self, 'trace_ok', False) and not eacces:
             j = model_prefix(k)
             lo = runner._ask(f'store image fault a {j} 0 {args}')  # pylint: disable=protected-access
             msg = self._compare_image(Raw(d), rc, pool, cfg, lo, lo, f'after the fault at event {k} (model action {j})', 'between', j)
@@ -641,6 +648,26 @@ class Lab:
             if msg:
                 self.breaks.append({'where': msg[:300], 'model': lo[:300], 'real': '', 'theorem_or_correspondence': 'Dos.IO.runFault vs the folder after an injected fault',
                                     'case': {'op': op, 'cfg': cfg.as_dict(), 'k': k}})
+        completed = not str(out.get('out', '')).startswith(('raised', 'child'))
+        if completed and not probs:
+            # "the operation either completes correctly or raises": it returned normally, so its whole effect must be there
+            if str(out.get('out', '')) != getattr(self, 'clean_out', str(out.get('out', ''))) and kind in ('delete', 'addLoose', 'addPacked', 'import'):
+                self.failures.append({'signature': f'fault-completed-other-result-{kind}',
+                                      'text': f'{label}: the call returned normally with {str(out.get("out"))[:80]}, a fault-free run returns {self.clean_out[:80]}',
+                                      'replay': self._replay(op, k, 'fault')})
+            else:
+                probs_c = self._oracle(d, pool, cfg, expected_after, univ, allow_loud, label + ' (the call returned normally)')
+                if kind == 'delete':
+                    dos = common.import_repo()
+                    cchk = dos.Container(d)
+                    try:
+                        left = [x for x in op['ks'] if isinstance(x, int) and cchk.has_object(pool.key(x, cfg.hash_type))]
+                    finally:
+                        cchk.close()
+                    if left:
+                        probs_c.append(f'{label} (the call returned normally): cid {left[0]} was to be deleted and is still there')
+                for p in probs_c[:1]:
+                    self.failures.append({'signature': f'fault-completed-{kind}', 'text': p, 'replay': self._replay(op, k, 'fault')})
         if not probs:
             self._rerun(d, cfg, pool, op, kind, label, expected_after, univ, log, outp, k)
         shutil.rmtree(d, ignore_errors=True)
